@@ -176,6 +176,47 @@ def make_ieee(period_us, age, nT):
     return fn
 
 
+def make_upsample(in_us, age, buflen, nticks):
+    """Up-sampling histories on a concrete timeline: resampling period 1 s, input samples every in_us (> 1 s) starting at a phase
+    enumerated in steps of 250 ms, nticks ticks; the relevance window grows when the input period is first estimated.  The oracle
+    reads maxlen and the estimated input period from the helper and keeps its own copy of what was received."""
+    fr = Fraction(age)
+    PER = timedelta(seconds=1)
+    us = timedelta(microseconds=1)
+
+    def fn(ex):
+        rec = []
+
+        def recorder(samples, cfg, props):
+            rec.append([s for s in samples])
+            return 42.0
+        cfg = rs.ResamplerConfig(resampling_period=PER, max_data_age_in_periods=age, resampling_function=recorder, initial_buffer_len=buflen)
+        phase = 250_000 * ex.choice("phase", in_us // 250_000)
+        helper = rs._ResamplingHelper("x", cfg)
+        ref_buf, j = [], 0
+        for k in range(nticks):
+            T_us = 1_000_000 * (k + 1)
+            while phase + j * in_us <= T_us:
+                t = phase + j * in_us
+                helper.add_sample(Sample(TS + t * us, Quantity(float(j))))
+                ref_buf.append((t, float(j)))
+                del ref_buf[:-helper._buffer.maxlen]
+                j += 1
+            n0 = len(rec)
+            out = helper.resample(TS + T_us * us)
+            del ref_buf[:-helper._buffer.maxlen]
+            sp = helper.source_properties.sampling_period
+            P = max(1_000_000, 0 if sp is None else sp // us)
+            num = P * fr.numerator
+            q, r = divmod(num, fr.denominator)
+            width = q + (1 if (2 * r > fr.denominator or (2 * r == fr.denominator and q % 2)) else 0)
+            exp = [v for t, v in ref_buf if T_us - width < t <= T_us]
+            got = [s_.value.base_value for s_ in rec[n0]] if len(rec) > n0 else []
+            ex.check(got == exp, f"tick {k + 1} s: function received samples {got}, expected {exp} (received so far {ref_buf}, input period {sp}, maxlen {helper._buffer.maxlen})")
+            ex.check((out.value is None) == (not exp), f"tick {k + 1} s: emitted value None-ness wrong")
+    return fn
+
+
 def instances(tier):
     I = Instance
     out = [I("reach:m2", "make", (2, 1.0, 2, 1, None, True), "reachability twin", budget_s=100, validate_every=0)]
@@ -197,6 +238,13 @@ def instances(tier):
                    [(100_000, 1.5), (300_000, 1.0), (1_500_000, 3.0), (100_000, 3.0), (700_000, 2.0), (70_000, 1.5), (1_100_000, 1.0), (200_000, 2.5)]):
         out.append(I(f"ieee-per{pus}us-age{a}", "make_ieee", (pus, a, 40 if tier == "quick" else 400),
                      f"concrete present-day timeline, period {pus} us, max_data_age_in_periods={a}: samples on both window edges +-1 us (IEEE arithmetic of the real code)",
+                     budget_s=100, validate_every=0))
+    ups = [(3_000_000, 3.0, 4, 12), (2_500_000, 2.0, 2, 10), (2_000_000, 3.0, 3, 10)]
+    if tier != "quick":
+        ups += [(3_500_000, 2.0, 3, 16), (1_500_000, 3.0, 4, 12), (5_000_000, 1.5, 2, 20), (2_250_000, 3.0, 5, 16)]
+    for iu, a, b, nt in ups:
+        out.append(I(f"upsample-in{iu}us-age{a}-buf{b}", "make_upsample", (iu, a, b, nt),
+                     f"up-sampling history on a concrete timeline: input every {iu} us, resampling 1 s, {nt} ticks, max_data_age_in_periods={a}, initial_buffer_len={b}, every 250 ms phase",
                      budget_s=100, validate_every=0))
     for m, a, b, ps, g in cfgs:
         out.append(I(f"m{m}-age{a}-buf{b}-per{ps}" + (f"-grid{g}" if g else ""), "make", (m, a, b, ps, g),
